@@ -3,6 +3,7 @@ package main
 import (
 	"bytes"
 	"fmt"
+	"net/netip"
 	"strconv"
 
 	"github.com/cilium/statedb"
@@ -10,7 +11,7 @@ import (
 	"github.com/cilium/statedb/lpm"
 )
 
-func init() { suites["enc"] = SuiteDef{Gen: genEnc, NewExec: func(string) Exec { return encExec{} }} }
+func init() { suites["enc"] = SuiteDef{Gen: genEnc, NewExec: func(string) Exec { return &encExec{} }} }
 
 // genEnc (C18): exhaustive small key tables + random long keys + targeted
 // long prefix-related primaries; integers; LPM keys.
@@ -148,14 +149,63 @@ func genEnc(cfg Config, emit func(string, bool, []string)) {
 		ops = append(ops, fmt.Sprintf("lpm %s %d", hx(d), l))
 	}
 	emit("lpm", true, ops)
+
+	// netip.Prefix -> LPM key (lpm.NetIPPrefixToIndexKey): IPv4 prefixes live in the IPv4-mapped
+	// part of the IPv6 space; distinct prefixes must give distinct keys, also the two default routes
+	ops = []string{"netip x00000000 0", "netip x00000000000000000000000000000000 0", "netip x0a000000 8", "netip x0a000000 0"}
+	for i := 0; i < 120; i++ {
+		n := []int{4, 4, 16}[r.IntN(3)]
+		d := make([]byte, n)
+		for j := range d {
+			if r.IntN(3) != 0 {
+				d[j] = byte(r.IntN(256))
+			}
+		}
+		if n == 16 && d[0] == 0 {
+			d[0] = 0x20 // never an IPv4-mapped IPv6 address (those coincide with IPv4 prefixes by design)
+		}
+		l := r.IntN(n*8 + 1)
+		if r.IntN(5) == 0 {
+			l = []int{0, 1, n * 8}[r.IntN(3)]
+		}
+		ops = append(ops, fmt.Sprintf("netip %s %d", hx(d), l))
+	}
+	emit("netip", true, ops)
 }
 
-type encExec struct{}
+type encExec struct{ netipSeen map[string]string }
 
-func (encExec) Close() {}
+func (*encExec) Close() {}
 
-func (encExec) Do(o *Out, f []string) string {
+func (e *encExec) Do(o *Out, f []string) string {
 	switch f[0] {
+	case "netip":
+		a := unhx(f[1])
+		bits, _ := strconv.Atoi(f[2])
+		addr, ok := netip.AddrFromSlice(a)
+		if !ok {
+			return "bad-op"
+		}
+		p := netip.PrefixFrom(addr, bits)
+		key := lpm.NetIPPrefixToIndexKey(p)
+		canon := p.Masked().String()
+		if e.netipSeen == nil {
+			e.netipSeen = map[string]string{}
+		}
+		if other, dup := e.netipSeen[string(key)]; dup && other != canon {
+			o.Fail("C18", "netip-prefix-keys-collide", nil, fmt.Sprintf("the prefixes %s and %s have the same LPM key %s", other, canon, hx(key)))
+		}
+		e.netipSeen[string(key)] = canon
+		data, pl := lpm.DecodeLPMKey(key)
+		want16 := p.Masked().Addr().As16()
+		wantBits := bits
+		if addr.Is4() {
+			wantBits += 96
+		}
+		if int(pl) != wantBits || !bytes.Equal(data, want16[:(wantBits+7)/8]) {
+			o.Fail("C18", "lpm-roundtrip", map[string]string{"encoder": "NetIPPrefixToIndexKey"}, fmt.Sprintf("NetIPPrefixToIndexKey(%s) = %s decodes to (%s, %d), want (%s, %d)", p, hx(key), hx(data), pl, hx(want16[:(wantBits+7)/8]), wantBits))
+		}
+		return hx(key)
 	case "enc":
 		k := unhx(f[1])
 		return fmt.Sprintf("%s %d", hx(statedb.VerifEncodeNonUniqueBytes(k)), statedb.VerifEncodedLength(k))
